@@ -65,7 +65,8 @@ Lifecycle == {"setup", "on_enable", "on_disable"}
 OrderOwner(ev) ==
     LET ek == IF ev.e = "cb" THEN ev.k ELSE ev.e
         sk == NextSite.k
-    IN IF ev.e = "exit" \/ pc \in {"crashed", "exited"} THEN {"C07"}
+    IN IF ev.e = "hang" THEN {"C05", "C07"}      \* the thread spins without ever reaching NotifierDelay.wait()
+       ELSE IF ev.e = "exit" \/ pc \in {"crashed", "exited"} THEN {"C07"}
        ELSE {"C05"}
             \cup (IF ek \in Lifecycle \/ sk \in Lifecycle THEN {"C06"} ELSE {})
             \cup (IF ek = "feedback" \/ sk = "fbphase" THEN {"C11"} ELSE {})
